@@ -1114,22 +1114,24 @@ radius_pkt_attr_add_uint32(rad_pkt_hdr_p pkt, size_t pkt_buf_size, size_t *pkt_s
 static inline int
 radius_pkt_attr_add_port(rad_pkt_hdr_p pkt, size_t pkt_buf_size, size_t *pkt_size_ret,
     uint8_t type, struct sockaddr_storage *addr, size_t *offset_ret) {
+	uint32_t port; /* Attribute value: 4 octets, network byte order. */
 
 	if (NULL == addr)
 		return (EINVAL);
 
 	switch (addr->ss_family) {
 	case AF_INET:
-		return (radius_pkt_attr_add(pkt, pkt_buf_size, pkt_size_ret,
-		    type, 4, (uint8_t*)&((struct sockaddr_in*)addr)->sin_port,
-		    offset_ret));
+		port = htonl(ntohs(((struct sockaddr_in*)addr)->sin_port));
+		break;
 	case AF_INET6:
-		return (radius_pkt_attr_add(pkt, pkt_buf_size, pkt_size_ret,
-		    type, 4, (uint8_t*)&((struct sockaddr_in6*)addr)->sin6_port,
-		    offset_ret));
+		port = htonl(ntohs(((struct sockaddr_in6*)addr)->sin6_port));
+		break;
+	default:
+		return (EINVAL);
 	}
 
-	return (EINVAL);
+	return (radius_pkt_attr_add(pkt, pkt_buf_size, pkt_size_ret,
+	    type, 4, (uint8_t*)&port, offset_ret));
 }
 static inline int
 radius_pkt_attr_add_addr(rad_pkt_hdr_p pkt, size_t pkt_buf_size, size_t *pkt_size_ret,
